@@ -3816,8 +3816,9 @@ class Group(System):
                 raise RuntimeError("No response variables were passed to compute_totals and "
                                    "the driver is not providing any.")
         else:
-            of_src_names = [m['source'] for n, m in driver._responses.items()
-                            if n in driver_ordered_nl_resp_names]
+            # source names in the driver's response order (objectives first), not in
+            # declaration order
+            of_src_names = [driver._responses[n]['source'] for n in driver_ordered_nl_resp_names]
             of = list(of)
             if of != driver_ordered_nl_resp_names and of != of_src_names:
                 has_custom_derivs = True
@@ -3901,8 +3902,9 @@ class Group(System):
                 raise RuntimeError("No response variables were passed to compute_totals and "
                                    "the driver is not providing any.")
         else:
-            of_src_names = [m['source'] for n, m in driver._responses.items()
-                            if n in driver_ordered_nl_resp_names]
+            # source names in the driver's response order (objectives first), not in
+            # declaration order
+            of_src_names = [driver._responses[n]['source'] for n in driver_ordered_nl_resp_names]
             of = list(of)
             if of != driver_ordered_nl_resp_names and of != of_src_names:
                 has_custom_derivs = True
